@@ -33,11 +33,48 @@ def _cname(call):
     return None
 
 
-def carries(e, S):
+SHAPE_ELEMENTWISE = {"isnan", "isfinite", "isinf", "equal", "not_equal", "logical_not", "logical_and", "logical_or",
+                     "invert", "isin", "greater", "less", "where", "nan_to_num", "fmin", "fmax", "vectorize"}
+SHAPE_CHANGING = {"reshape", "ravel", "flatten", "squeeze", "take", "expand_dims", "transpose", "atleast_1d",
+                  "atleast_2d", "column_or_1d"}
+LIKE = {"ones_like", "zeros_like", "full_like", "empty_like"}
+SHAPED = {"ones", "zeros", "full", "empty"}
+
+
+def _shape_of(e, S):
+    """is `e` the full shape of a carrying array (x.shape / np.shape(x))?"""
+    if isinstance(e, ast.Attribute) and e.attr == "shape":
+        return carries(e.value, S, "shape")
+    if isinstance(e, ast.Call) and _cname(e) == "shape" and e.args:
+        return carries(e.args[0], S, "shape")
+    return False
+
+
+def carries(e, S, mode="value"):
+    """mode 'value': the values (markers such as NaN) of a carrying array
+    reach `e`;  mode 'shape': `e` has, element for element, the shape of a
+    carrying array."""
     if e is None:
         return False
     if isinstance(e, ast.Name):
         return e.id in S
+    if mode == "shape":
+        if isinstance(e, ast.Compare):
+            return carries(e.left, S, mode) or any(carries(c, S, mode) for c in e.comparators)
+        if isinstance(e, ast.Call):
+            n = _cname(e)
+            if n in LIKE:
+                return bool(e.args) and carries(e.args[0], S, mode)
+            if n in SHAPED:
+                sh = e.args[0] if e.args else next((k.value for k in e.keywords if k.arg == "shape"), None)
+                return sh is not None and _shape_of(sh, S)
+            if n in SHAPE_ELEMENTWISE:
+                ops = list(e.args)
+                return any(carries(a, S, mode) for a in ops)
+        if isinstance(e, ast.Subscript):
+            return False  # indexing changes the shape
+        if isinstance(e, ast.Call) and _cname(e) in SHAPE_CHANGING:
+            return False
     if isinstance(e, ast.Call):
         n = _cname(e)
         if n in SHAPE_ONLY or n in ERASING:
@@ -46,18 +83,18 @@ def carries(e, S):
             ops = list(e.args) + [k.value for k in e.keywords if k.arg not in ("out", "dtype", "axis", "order", "copy")]
             if isinstance(e.func, ast.Attribute) and not _is_module(e.func.value):
                 ops.append(e.func.value)
-            return any(carries(a, S) for a in ops)
+            return any(carries(a, S, mode) for a in ops)
         return False
     if isinstance(e, ast.BinOp):
-        return carries(e.left, S) or carries(e.right, S)
+        return carries(e.left, S, mode) or carries(e.right, S, mode)
     if isinstance(e, ast.UnaryOp):
-        return carries(e.operand, S)
+        return carries(e.operand, S, mode)
     if isinstance(e, ast.Subscript):
-        return carries(e.value, S)
+        return carries(e.value, S, mode)
     if isinstance(e, ast.IfExp):
-        return carries(e.body, S) and carries(e.orelse, S)
+        return carries(e.body, S, mode) and carries(e.orelse, S, mode)
     if isinstance(e, ast.Attribute) and e.attr == "T":
-        return carries(e.value, S)
+        return mode == "value" and carries(e.value, S, mode)
     return False
 
 
@@ -77,7 +114,8 @@ def _full_slice(t):
 class MustCarry:
     """returns: list of (return node, ok)"""
 
-    def __init__(self, fnode, param, nonnull=(), nonempty=()):
+    def __init__(self, fnode, param, nonnull=(), nonempty=(), mode="value"):
+        self.mode = mode
         self.fnode = fnode
         self.param = param
         self.nonnull = set(nonnull) | {param}
@@ -144,17 +182,17 @@ class MustCarry:
 
     def stmt(self, st, S):
         if isinstance(st, ast.Assign):
-            c = carries(st.value, S)
+            c = carries(st.value, S, self.mode)
             for t in st.targets:
                 S = self._bind(t, c, S)
             return S
         if isinstance(st, ast.AnnAssign):
             if st.value is not None:
-                return self._bind(st.target, carries(st.value, S), S)
+                return self._bind(st.target, carries(st.value, S, self.mode), S)
             return S
         if isinstance(st, ast.AugAssign):
             b = base_name(st.target)
-            if b and (b in S or carries(st.value, S)):
+            if b and (b in S or carries(st.value, S, self.mode)):
                 S = set(S) | {b}
             return S
         if isinstance(st, ast.Expr):
@@ -162,11 +200,11 @@ class MustCarry:
             if isinstance(v, ast.Call):
                 for k in v.keywords:
                     if k.arg == "out" and isinstance(k.value, ast.Name):
-                        c = any(carries(a, S) for a in v.args) and _cname(v) in ELEMENTWISE
+                        c = any(carries(a, S, self.mode) for a in v.args) and _cname(v) in ELEMENTWISE
                         S = self._bind(k.value, c, S)
             return S
         if isinstance(st, ast.Return):
-            self.returns.append((st, carries(st.value, S)))
+            self.returns.append((st, carries(st.value, S, self.mode)))
             return None
         if isinstance(st, ast.Raise):
             return None
